@@ -18,6 +18,7 @@ var signCertKey = map[string][3]string{"L0": {"k1", "L", "s1"}, "L1": {"k1", "Lx
 	"L5": {"k1", "Lxxxxx", "s1"}, "L6": {"k1", "Lxxxxxx", "s1"}, "L7": {"k1", "Lxxxxxxx", "s1"}, // issuer names of 8 consecutive lengths: signature entries of every length class mod 8
 	"A": {"k1", "i1", "s1"}, "B": {"k2", "i2", "s2"}, "At": {"k2", "i1", "s1"}, "A3": {"k3072", "multi", "big"}, "A4": {"k4096", "long", "80"},
 	"Ca":   {"k3072", "ca", "7f"}, // issued by a separate CA: issuer differs from subject
+	"Kca": {"k1", "kuca", "s1"}, "Kenc": {"k2", "kuenc", "s2"}, "Kself": {"k3072", "selfca", "7f"}, // key usages: a CA certificate used directly, keyEncipherment only, openssl's self-signed CA:TRUE default
 	"S384": {"k1", "sig384", "s1"}, "S512": {"k2", "sig512", "s2"}} // certificates that are themselves signed with SHA-384 / SHA-512
 
 func signImageLayout(id string) peLayout {
@@ -156,7 +157,7 @@ func runPeSign(sc M) {
 		ev := M{"sc": id, "op": name, "c": c, "i": i, "res": "ok", "res_reparsed": "-"}
 		callStart(id, name, M{"i": i})
 		var ck [3]string
-		if c != "-" {
+		if c != "-" && name != "hash" {
 			ck = signCertKey[c]
 		}
 		o2, err := guard(func() error {
@@ -184,6 +185,15 @@ func runPeSign(sc M) {
 					return err
 				}
 				p = np
+			case "hash":
+				alg := map[string]crypto.Hash{"sha1": crypto.SHA1, "sha256": crypto.SHA256, "sha512": crypto.SHA512}[c]
+				hh := alg.New()
+				hh.Write(peHashInput(p.Bytes()))
+				ev["res"] = "equal"
+				if !bytes.Equal(p.Hash(alg), hh.Sum(nil)) {
+					ev["res"] = "differs"
+				}
+				return nil
 			case "verify":
 				cert := testCert(ck[0], ck[1], ck[2])
 				ok, err := p.Verify(cert)
@@ -207,7 +217,7 @@ func runPeSign(sc M) {
 		if o2.Kind == "panic" {
 			ev["panic"] = o2.Panic
 		}
-		if name != "verify" {
+		if name != "verify" && name != "hash" {
 			ev["out"] = projectSigned(p.Bytes(), orig, img, before)
 		}
 		emit(ev)
